@@ -45,7 +45,7 @@ void h_signer_commit(void) {
         kv = sval(&g_gen_a0);
         __CPROVER_assert(g_gen_n == 1 && kv != 0 && kv < n && (unsigned char)(kv >> (8 * (31 - k))) == g_nf_out_byte, "C15 signer_commit: the committed nonce k is the most recent RFC 6979 output, in [1, n)");
         __CPROVER_assert(g_sg_n == 1 && FE_EQ(g_sg_a0.x, g_gen_r0.x) && FE_EQ(g_sg_a0.y, g_gen_r0.y) && FE_EQ(g_sg_a0.z, g_gen_r0.z) && g_sg_a0.infinity == g_gen_r0.infinity, "C15 signer_commit: the nonce point is the affine form of k*G");
-        __CPROVER_assert(le256(&op.data[0]) == fmodp(&g_sg_r0.x) && le256(&op.data[32]) == fmodp(&g_sg_r0.y), "C15 signer_commit: opening = save(nonce point)");
+        __CPROVER_assert(le256(&op.data[0]) == fmodp1(&g_sg_r0.x) && le256(&op.data[32]) == fmodp1(&g_sg_r0.y), "C15 signer_commit: opening = save(nonce point)");
         if (verif_nonce_calls == 3) REACH("signer_commit accepted on third attempt");
         if (verif_nonce_calls == 1) REACH("signer_commit accepted on first attempt");
     }
